@@ -4,7 +4,7 @@
     projection of the whole state (slots: Inputs, InUse, LRU order; live sequences: inputs, pendingInputs, slot,
     numPredicted, pendingResponses; nextSeq; the cache contents per slot as sorted (position, token) lists). *)
 From Coq Require Import List ZArith NArith Bool Arith.
-From V Require Import Common.Bytes Runner.Stop Slots.Model.
+From V Require Import Common.Bytes Slots.StopFns Slots.Model.
 Import ListNotations.
 Open Scope Z_scope.
 
